@@ -366,13 +366,27 @@ impl Spec {
         if rw.blank_lines && r.chance(1, 4) {
             s.push_str(*r.pick(&["\n", "  \n"]));
         }
-        for (k, v) in &self.meta {
-            s.push_str(&format!("{}#META {}: {}{}\n", lead(&mut r), k, v, if rw.padding { *r.pick(&["", " ", "\t"]) } else { "" }));
+        // reordering lines: metadata lines are lines too - they keep their relative order but may end up anywhere
+        // between the data lines (position = number of data lines written before them)
+        let mut meta_at: Vec<usize> = self.meta.iter().map(|_| if rw.shuffle && r.chance(1, 2) { r.usize(self.lines.len() + 1) } else { 0 }).collect();
+        meta_at.sort();
+        let meta_line = |r: &mut crate::rng::Rng, k: &str, v: &str| format!("{}#META {}: {}{}\n", lead(r), k, v, if rw.padding { *r.pick(&["", " ", "\t"]) } else { "" });
+        for (i, (k, v)) in self.meta.iter().enumerate() {
+            if meta_at[i] == 0 {
+                let ml = meta_line(&mut r, k, v);
+                s.push_str(&ml);
+            }
         }
         if rw.header {
             s.push_str(&format!("{}vector, tipo, src_dst, 1, 2, 3\n", lead(&mut r)));
         }
-        for l in &self.lines {
+        for (li, l) in self.lines.iter().enumerate() {
+            for (i, (k, v)) in self.meta.iter().enumerate() {
+                if meta_at[i] == li && li > 0 {
+                    let ml = meta_line(&mut r, k, v);
+                    s.push_str(&ml);
+                }
+            }
             if rw.comments && r.chance(1, 3) {
                 s.push_str(*r.pick(&["# comentario", "#", "# 1, CONSUMO, ACS, ELECTRICIDAD, 10", "#   <&> ñ"]));
                 s.push('\n');
@@ -418,6 +432,12 @@ impl Spec {
             }
             s.push_str(&txt);
             s.push_str(if rw.padding && r.chance(1, 4) { "\r\n" } else { "\n" });
+        }
+        for (i, (k, v)) in self.meta.iter().enumerate() {
+            if meta_at[i] >= self.lines.len() && meta_at[i] > 0 {
+                let ml = meta_line(&mut r, k, v);
+                s.push_str(&ml);
+            }
         }
         if rw.blank_lines {
             s.push_str("\n\n");
